@@ -20,6 +20,13 @@ def corpus(ctx):
     return gs
 
 
+def corpus_cc(ctx):
+    from harness import gen_cc
+    rng = ctx.rng('graphcc')
+    n = 250 if ctx.quick else 3000
+    return [gen_cc.theory_conn_example()] + [gen_cc.random_cc_graph(rng) for _ in range(n)]
+
+
 def drive_one(item):
     from harness import drive_graph
     tid, g = item
@@ -41,7 +48,7 @@ def summarise(traces, mon):
         out['n_events'] += len(t['ev'])
         out['adm_total'] += nadm
         out['truncated'] += 1 if t.get('trunc') else 0
-        key = json.dumps([t['g'][k] for k in ('n', 'start', 'der', 'ch', 'inc', 'cons')])
+        key = json.dumps([t['g'][k] for k in ('n', 'start', 'der', 'ch', 'inc', 'cons', 'cc')] + [[n['t'], n['dl'], n['dmin'], n['dmax'], n['rep']] for n in t['g']['nodes'] if n['t'] != 'plain'])
         if len(t['ev']) >= 2 and key not in seen:
             out['nontrivial'] += 1
         seen.add(key)
@@ -52,7 +59,7 @@ def summarise(traces, mon):
         if fails:
             out['fails'].append({'tid': t['tid'], 'fails': fails, 'trace': t})
     for t in traces[:1] + traces[len(traces)//2:len(traces)//2+1]:
-        out['samples'].append({'g': {k: t['g'][k] for k in ('n', 'start', 'der', 'ch', 'inc', 'cons')},
+        out['samples'].append({'g': {k: t['g'][k] for k in ('n', 'start', 'der', 'ch', 'inc', 'cons', 'cc')},
                                'events': [{k: e[k] for k in ('e', 'p', 'c', 'k', 'q', 'auto')} | {
                                    'obs_nodes': e['obs']['nodes'], 'feasible': e['obs']['feasible'],
                                    'final': e['obs']['final']} for e in t['ev'][:6]],
@@ -69,6 +76,10 @@ def validate(traces, shards=16):
     traces = [t for t in traces if 'skip' not in t]
     mon = tlc.run_monitor('Mon_Graph', traces, cfg='Mon_Graph.cfg', shards=shards)
     return traces, mon
+
+
+def run_cc(ctx):
+    return run(ctx, gs=corpus_cc(ctx))
 
 
 def run(ctx, gs=None):
